@@ -74,6 +74,11 @@ func startServer(bin, tmpl, work string) (*exec.Cmd, error) {
 	if err != nil {
 		return nil, err
 	}
+	// the answers must come from the server started here, not from a stray one on the same port
+	if resp, err := httpc.Get(e2eBase + "/ping"); err == nil {
+		resp.Body.Close()
+		return nil, fmt.Errorf("port %d is already served by another process", e2eHTTP)
+	}
 	cmd := exec.Command(bin, "-config", conf)
 	cmd.Dir = work
 	cmd.Env = append(os.Environ(), "HOME="+work)
